@@ -198,6 +198,7 @@ func runC15(c *engine.Ctx) {
 	checkOwnList(c, mgr, handleObj)
 	checkCloseNotifiesAll(c, handleObj)
 	checkAllPluginsRegistered(c)
+	checkFreshDecodeTarget(c, "R11")
 
 	// ---- R3 transport fails closed ----
 	c.Rule("R3", "httpPlugin.do returns nil only as json.Unmarshal's result on a path with StatusCode==200; httpPlugin.Handle returns a non-nil error whenever do did")
@@ -1091,4 +1092,78 @@ func chainCalls(f *ssa.Function, target *types.Func) []ssa.CallInstruction {
 		}
 	})
 	return out
+}
+
+// checkFreshDecodeTarget (R11): the content a plugin returns replaces the content it was sent. encoding/json leaves
+// fields that are absent from the answer untouched and decodes into existing maps, so the answer must be decoded into a
+// fresh zero value: decoding on top of a copy of the request resurrects what the plugin removed (omitempty fields, map
+// entries) and, the copy being shallow, writes into the live session's maps.
+func checkFreshDecodeTarget(c *engine.Ctx, rule string) {
+	c.Rule(rule, "pkg/plugin/server: the value a plugin's answer is decoded into is a new zero value — the reflect.Value made by reflect.New is only turned into an interface, nothing is Set into it before the decode")
+	p := c.P
+	n := 0
+	for _, f := range p.RepoFuncs() {
+		if f.Pkg == nil || f.Pkg.Pkg.Path() != engine.ModPath+"/pkg/plugin/server" {
+			continue
+		}
+		f := f
+		engine.ForEachInstr(f, func(in ssa.Instruction) {
+			call, ok := in.(*ssa.Call)
+			if !ok {
+				return
+			}
+			o := engine.CalleeObj(call)
+			if o == nil || o.Pkg() == nil || o.Pkg().Path() != "reflect" || o.Name() != "New" {
+				return
+			}
+			n++
+			family := map[ssa.Value]bool{call: true}
+			work := []ssa.Value{call}
+			bad := ""
+			for len(work) > 0 {
+				v := work[0]
+				work = work[1:]
+				refs := v.Referrers()
+				if refs == nil {
+					continue
+				}
+				for _, r := range *refs {
+					switch x := r.(type) {
+					case *ssa.Call:
+						xo := engine.CalleeObj(x)
+						if xo == nil || xo.Pkg() == nil || xo.Pkg().Path() != "reflect" {
+							continue
+						}
+						if a := engine.CallArgs(x); len(a) == 0 || !family[a[0]] {
+							continue
+						}
+						switch {
+						case strings.HasPrefix(xo.Name(), "Set"):
+							bad = xo.Name()
+						case xo.Name() == "Elem" || xo.Name() == "Field" || xo.Name() == "FieldByName" || xo.Name() == "Index" || xo.Name() == "Addr":
+							if !family[x] {
+								family[x] = true
+								work = append(work, x)
+							}
+						}
+					case *ssa.Store:
+						// spilled to a local cell: follow the loads
+						if al, ok := x.Addr.(*ssa.Alloc); ok && x.Val == v {
+							if ar := al.Referrers(); ar != nil {
+								for _, u := range *ar {
+									if ld, ok := u.(*ssa.UnOp); ok && ld.Op == token.MUL && !family[ld] {
+										family[ld] = true
+										work = append(work, ld)
+									}
+								}
+							}
+						}
+					}
+				}
+			}
+			c.Check(bad == "", p.FuncName(f)+">decode-target", in.Pos(), len(family), nil,
+				"the decode target made by reflect.New stays a zero value until the plugin's answer is decoded into it (found reflect.Value.%s on it: absent fields and removed map entries of the answer would keep the request's values)", bad)
+		})
+	}
+	c.Floor(n, 1)
 }
